@@ -5,8 +5,9 @@ import PraatModel.Lemmas.Strip
 /-!
 # C11 — insertEntry/deleteEntry follow the selected collision policy exactly
 
-Exact arithmetic.  `NoClose` is the separation hypothesis under which the tolerant `Interval.__eq__` used by
-`deleteEntry` coincides with equality.  The inserted entry's label is assumed already stripped (`insertEntry`
+Exact arithmetic.  No separation hypothesis: `deleteEntry` looks for the exactly matching entry first, so deleting a
+member removes that member however close other entries are; the tolerant `Interval.__eq__` only decides what happens
+to an argument that is not in the tier (`delete_spec`, second clause).  The inserted entry's label is assumed already stripped (`insertEntry`
 strips it first; `pyStrip` is modelled, its idempotence is checked by the harness).
 -/
 namespace C11
@@ -28,11 +29,11 @@ theorem crop_matches (t : ITier Int) (hwf : t.WF) (x : Iv Int) (hx : x.s < x.e) 
   exact ⟨mt, hc, by rw [hmt, getIvs_lax_eq_filter x.s x.e hx t.es hwf.pos]; rfl⟩
 
 /-- deleting the colliding one after the other (in list order) leaves exactly the others -/
-theorem delete_matches (t : ITier Int) (hwf : t.WF) (hn : NoClose t.es) (x : Iv Int) :
+theorem delete_matches (t : ITier Int) (hwf : t.WF) (x : Iv Int) :
     ∃ es0, deleteIvs t.es (colliding t x) = .ok es0 ∧ es0.Nodup ∧
       (∀ y, y ∈ es0 ↔ y ∈ t.es ∧ ov x.s x.e y = false) := by
   have hnd : t.es.Nodup := nodup_of_wf t.es hwf.pos hwf.disj.setDisj
-  refine ⟨_, deleteIvs_of_mem t.es _ hn hnd (fun m hm => (List.mem_filter.1 hm).1) (hnd.filter _),
+  refine ⟨_, deleteIvs_of_mem t.es _ hnd (fun m hm => (List.mem_filter.1 hm).1) (hnd.filter _),
     foldl_erase_nodup _ _ hnd, ?_⟩
   intro y
   rw [foldl_erase_mem _ _ _ hnd]
@@ -100,13 +101,13 @@ theorem others_free_of_hull (t : ITier Int) (hwf : t.WF) (x : Iv Int) (hx : x.s 
       · unfold hullMax; omega
 
 /-- **collision, mode `replace`**: exactly the colliding entries are removed and the new one inserted -/
-theorem insert_replace (t : ITier Int) (hwf : t.WF) (hn : NoClose t.es) (x : Iv Int) (hx : x.s < x.e)
+theorem insert_replace (t : ITier Int) (hwf : t.WF) (x : Iv Int) (hx : x.s < x.e)
     (hstr : pyStrip x.l = x.l) (hcol : colliding t x ≠ []) :
     ∃ t', t.insertEntry x .replace = .ok t' ∧ t'.WF ∧ t'.name = t.name ∧
       (∀ y, y ∈ t'.es ↔ (y ∈ t.es ∧ ¬ (y.s < x.e ∧ x.s < y.e)) ∨ y = x) ∧
       t'.lo = min t.lo x.s ∧ t'.hi = max t.hi x.e := by
   obtain ⟨mt, hc, hm⟩ := crop_matches t hwf x hx
-  obtain ⟨es0, hdel, hnd0, hmem0⟩ := delete_matches t hwf hn x
+  obtain ⟨es0, hdel, hnd0, hmem0⟩ := delete_matches t hwf x
   have hfree : ∀ iv ∈ es0, iv.e ≤ x.s ∨ x.e ≤ iv.s := by
     intro iv hiv
     have := ((hmem0 iv).1 hiv).2
@@ -142,7 +143,7 @@ theorem merged_label_stripped (t : ITier Int) (hwf : t.WF) (x : Iv Int) (hstr : 
 
 /-- **collision, mode `merge`**: the colliding entries and the new one are replaced by one entry covering their
 joint extent, labelled with the `-`-join of all their labels in tuple order (start, end, label) -/
-theorem insert_merge (t : ITier Int) (hwf : t.WF) (hn : NoClose t.es) (x : Iv Int) (hx : x.s < x.e)
+theorem insert_merge (t : ITier Int) (hwf : t.WF) (x : Iv Int) (hx : x.s < x.e)
     (hstr : pyStrip x.l = x.l) (hcol : colliding t x ≠ [])
     (hMstr : pyStrip (merged t x).l = (merged t x).l) :
     (merged t x).s = hullMin ((colliding t x).map (·.s)) x.s ∧
@@ -216,7 +217,7 @@ theorem insert_merge (t : ITier Int) (hwf : t.WF) (hn : NoClose t.es) (x : Iv In
           exact hmax1 _ (by rw [← hl]; exact hperm.mem_iff.2 (List.mem_append_left _ h))
   refine ⟨hMs, hMe, rfl, ?_⟩
   obtain ⟨mt, hc, hm⟩ := crop_matches t hwf x hx
-  obtain ⟨es0, hdel, hnd0, hmem0⟩ := delete_matches t hwf hn x
+  obtain ⟨es0, hdel, hnd0, hmem0⟩ := delete_matches t hwf x
   have hMpos : (merged t x).s < (merged t x).e := by
     have := (hullMin_le ((colliding t x).map (·.s)) x.s).1
     have := (hullMax_ge ((colliding t x).map (·.e)) x.e).1
@@ -258,13 +259,14 @@ theorem insert_merge (t : ITier Int) (hwf : t.WF) (hn : NoClose t.es) (x : Iv In
     rw [hfin.2.2.1 y, hmem0 y]
     simp [ov]
 
-/-- **deleteEntry** removes exactly the given entry; an entry that no member equals (even tolerantly) raises -/
-theorem delete_spec (t : ITier Int) (hn : NoClose t.es) (x : Iv Int) :
+/-- **deleteEntry** removes exactly the given entry (whatever else in the tier is close to it); an entry that no
+member equals (even tolerantly) raises -/
+theorem delete_spec (t : ITier Int) (x : Iv Int) :
     (x ∈ t.es → t.deleteEntry x = .ok { t with es := t.es.erase x }) ∧
     ((∀ e ∈ t.es, ivEq e x = false) → t.deleteEntry x = .error .ValueError) := by
   constructor
   · intro hx
-    simp [ITier.deleteEntry, deleteIv_of_mem t.es x hn hx, bind, Except.bind, pure, Except.pure]
+    simp [ITier.deleteEntry, deleteIv_of_mem t.es x hx, bind, Except.bind, pure, Except.pure]
   · intro h
     simp [ITier.deleteEntry, deleteIv_not_mem t.es x h, bind, Except.bind]
 
@@ -298,13 +300,13 @@ def OpOk (t : ITier Int) : Op → Prop
   | .insert x m => x.s < x.e ∧ pyStrip x.l = x.l ∧ (m = .merge → pyStrip (merged t x).l = (merged t x).l)
   | .delete _ => True
 
-theorem step_wf (t : ITier Int) (hwf : t.WF) (hn : NoClose t.es) (op : Op) (hop : OpOk t op)
+theorem step_wf (t : ITier Int) (hwf : t.WF) (op : Op) (hop : OpOk t op)
     (t' : ITier Int) (h : step t op = .ok t') : t'.WF := by
   cases op with
   | delete x =>
     simp only [step, ITier.deleteEntry, bind, Except.bind] at h
     by_cases hx : x ∈ t.es
-    · rw [deleteIv_of_mem t.es x hn hx] at h
+    · rw [deleteIv_of_mem t.es x hx] at h
       simp only [pure, Except.pure, Except.ok.injEq] at h; subst h
       exact delete_wf t hwf x
     · -- some tolerant match may still exist; whichever entry is removed, a sublist of a WF list is WF
@@ -329,10 +331,10 @@ theorem step_wf (t : ITier Int) (hwf : t.WF) (hn : NoClose t.es) (op : Op) (hop 
       rw [h] at e; cases e; exact w
     · cases m with
       | replace =>
-        obtain ⟨t'', e, w, _⟩ := insert_replace t hwf hn x hx hstr hcol
+        obtain ⟨t'', e, w, _⟩ := insert_replace t hwf x hx hstr hcol
         rw [h] at e; cases e; exact w
       | merge =>
-        obtain ⟨_, _, _, t'', e, w, _⟩ := insert_merge t hwf hn x hx hstr hcol (hM rfl)
+        obtain ⟨_, _, _, t'', e, w, _⟩ := insert_merge t hwf x hx hstr hcol (hM rfl)
         rw [h] at e; cases e; exact w
       | error =>
         obtain ⟨iv, hiv⟩ := List.exists_mem_of_ne_nil _ hcol
@@ -340,10 +342,10 @@ theorem step_wf (t : ITier Int) (hwf : t.WF) (hn : NoClose t.es) (op : Op) (hop 
         have := insert_error t hwf x hx hstr iv hm.1 (by simpa [ov] using hm.2)
         rw [h] at this; cases this
 
-/-- along the history every state meets the separation hypothesis and every operation is admissible -/
+/-- along the history every operation is admissible in the state it is applied to -/
 def Admissible : ITier Int → List Op → Prop
   | _, [] => True
-  | t, op :: ops => NoClose t.es ∧ OpOk t op ∧ (∀ t', step t op = .ok t' → Admissible t' ops) ∧
+  | t, op :: ops => OpOk t op ∧ (∀ t', step t op = .ok t' → Admissible t' ops) ∧
       (∀ e, step t op = .error e → Admissible t ops)
 
 /-- **histories**: after any admissible sequence of inserts and deletes (of any length) the tier is well-formed
@@ -352,10 +354,10 @@ theorem run_wf (t : ITier Int) (hwf : t.WF) (ops : List Op) (h : Admissible t op
   induction ops generalizing t with
   | nil => exact hwf
   | cons op ops ih =>
-    obtain ⟨hn, hop, h1, h2⟩ := h
+    obtain ⟨hop, h1, h2⟩ := h
     simp only [run]
     cases hs : step t op with
-    | ok t' => exact ih t' (step_wf t hwf hn op hop t' hs) (h1 t' hs)
+    | ok t' => exact ih t' (step_wf t hwf op hop t' hs) (h1 t' hs)
     | error e => exact ih t hwf (h2 e hs)
 
 /-! ## point tiers -/
@@ -375,7 +377,18 @@ theorem pinsert_error (t : PTier Int) (x : Pt Int) (p : Pt Int) (hp : p ∈ t.ps
   | some old => simp [hf, bind, Except.bind, throw, throwThe, MonadExceptOf.throw]
 
 /-! ## non-vacuity -/
-example : C07.exTier.WF ∧ NoClose C07.exTier.es := ⟨C07.exTier_wf, C07.exTier_noclose⟩
+example : C07.exTier.WF := C07.exTier_wf
+/-- a history on a tier with two tolerantly-equal entries (outside the former separation hypothesis): delete the
+second of the close pair, then insert over the place of both in `replace` mode -/
+example : Admissible C07.closeTier
+    [.delete ⟨10000000005, 10000000010, "x"⟩, .insert ⟨10000000000, 10000000010, "n"⟩ .replace] := by
+  refine ⟨trivial, ?_, ?_⟩
+  · intro t' h
+    refine ⟨⟨by decide, by decide, by intro h; cases h⟩, fun _ _ => trivial, fun _ _ => trivial⟩
+  · intro e h
+    refine ⟨⟨by decide, by decide, by intro h; cases h⟩, fun _ _ => trivial, fun _ _ => trivial⟩
+#guard (C07.closeTier.deleteEntry ⟨10000000005, 10000000010, "x"⟩).toOption.map (·.es) ==
+  some [⟨0, 10000000000, "a"⟩, ⟨10000000000, 10000000005, "x"⟩, ⟨10000000010, 20000000000, "b"⟩]
 #guard (C07.exTier.insertEntry ⟨20, 85, "n"⟩ .merge).toOption.map (fun t => (t.es, t.lo, t.hi)) ==
   some ([⟨10, 90, "a-n-b-c"⟩], 0, 100)
 #guard (C07.exTier.insertEntry ⟨20, 85, "n"⟩ .replace).toOption.map (·.es) == some [⟨20, 85, "n"⟩]
